@@ -46,7 +46,7 @@ def replay(w, ctx):
 
 def floors(m, tier):
     c = m['counters']
-    need = 2500 if tier == 'quick' else 50000
+    need = 2500 if tier == 'quick' else 25000
     out = []
     if c.get('c02_status_judged', 0) + 0 < need:
         out.append('only %d statuses judged against the reference (< %d)' % (c.get('c02_status_judged', 0), need))
